@@ -147,8 +147,6 @@ GOALS = [("fullreplace", dict(name="GF", na=2, maxn=2, vals="0", bals="4", AS=1,
 def goals(ctx):
     out = []
     for goal, c, depth in GOALS:
-        if ctx.quick and c["name"] in ("GF2", "GT2"):
-            continue
         m = ctx.tlc_must("TxPool", "SPECIFICATION Spec\nINVARIANT NoGoal\nVIEW View\nCHECK_DEADLOCK FALSE\n" +
                          consts(c, ops=depth, alpha="goal", goal=goal), name="Goal_%s" % c["name"], timeout=1500)
         got = [v for v in m.printed if isinstance(v, dict) and v.get("kind") == "CEX" and str(v.get("clause", "")).startswith("goal:")]
